@@ -8,9 +8,9 @@
    that entry point's storage convention is A on 0..N-1 x 0..N-1, and its right-hand side is b.
    Values are integers (the assembly is ring arithmetic); PARTIAL with respect to the property text:
    the solvers' backward error and float rounding of the assembly are outside the proof. *)
-From Coq Require Import ZArith List Bool Lia.
+From Coq Require Import ZArith List Bool Lia String.
 From PB Require Import lib.SumZ lib.PySlice lib.Arr lib.Loop lib.LoopProofs C11.DtD C11.Table gen.GenBands
-                       C11.Banded C11.History C06.Model C06.Proofs C06.Model2D C06.Proofs2D.
+                       C11.Banded C11.History C06.Model C06.Proofs C06.Model2D C06.Proofs2D C06.Vec gen.GenC06Vec C06.VecProofs.
 Import ListNotations.
 Open Scope Z_scope.
 
@@ -191,6 +191,45 @@ Theorem C06_2d_solves_documented : forall (M N : nat) (A : mat) (b : Z -> Z) (k 
   sys2_ok M N A b k -> solves2 M N (c2_lhs k) (c2_rhs k) v -> solves2 M N A b v.
 Proof. exact sys2_ok_solves. Qed.
 Print Assumptions C06_2d_solves_documented.
+
+(* ---------------- the vec convention (C06/Vec.v): vec = row-major flatten of the LOGICAL (M, N) array, a function
+   of the values only, independent of strides; reshape with the default order is its inverse.  The flatten /
+   reshape / order= sites of the 2-D Whittaker code path are read off the current source on every run
+   (gen/GenC06Vec.v); the check refuses any order other than the default / 'C'. *)
+Theorem C06_2d_unvec_vec : forall (N : Z) (a : Z -> Z -> Z) (i j : Z), 0 <= j < N -> unvec N (vec N a) i j = a i j.
+Proof. exact unvec_vec. Qed.
+Print Assumptions C06_2d_unvec_vec.
+
+Theorem C06_2d_flatten_order_sound : forall sites : list site, check sites = true ->
+  (forall s, In s sites -> forall (l : layout) M N a, np_ravel (s_ord s) l M N a = Some (vec N a)) /\
+  (exists s, In s sites /\ is_site "_Algorithm2D._setup_whittaker" "ravel" "y" s = true) /\
+  (exists s, In s sites /\ is_site "_Algorithm2D._setup_whittaker" "ravel" "weight_array" s = true).
+Proof. exact check_sound. Qed.
+Print Assumptions C06_2d_flatten_order_sound.
+
+(* pinned source: the sites generated from the current tree pass the check *)
+Theorem C06_2d_flatten_sites_pinned : check GenC06Vec.sites = true.
+Proof. exact sites_checked. Qed.
+Print Assumptions C06_2d_flatten_sites_pinned.
+
+(* every other literal order flattens column-major memory differently from vec (why the check refuses it) *)
+Theorem C06_2d_flatten_other_order_refuted : forall o, ord_ok o = false -> o <> OrdUnknown ->
+  exists (l : layout) (a : Z -> Z -> Z) f p,
+    np_ravel o l 2 3 a = Some f /\ 0 <= p < 2 * 3 /\ f p <> vec 3 a p.
+Proof. exact ravel_other_refuted. Qed.
+Print Assumptions C06_2d_flatten_other_order_refuted.
+
+(* the asls-type 2-D system on logical arrays W, Y (values indexed (i, j)), in pair coordinates *)
+Theorem C06_2d_asls_system_logical : forall (M N : nat) (lr lc : Z) (dr dc : nat) (Wl : list (Z -> Z -> Z)) (Y : Z -> Z -> Z),
+  (1 <= dr < M)%nat -> (1 <= dc < N)%nat -> 0 < lr -> 0 < lc ->
+  exists cs, asls2 M N lr lc dr dc (map (vec (Z.of_nat N)) Wl) (vec (Z.of_nat N) Y) = Some cs /\
+    Forall2 (fun W k =>
+      forall i j i' j', 0 <= i < Z.of_nat M -> 0 <= j < Z.of_nat N -> 0 <= i' < Z.of_nat M -> 0 <= j' < Z.of_nat N ->
+        c2_lhs k (i * Z.of_nat N + j) (i' * Z.of_nat N + j')
+          = (if (i =? i') && (j =? j') then W i j else 0) + P2 M N lr lc dr dc i j i' j' /\
+        c2_rhs k (i * Z.of_nat N + j) = W i j * Y i j) Wl cs.
+Proof. exact asls2_logical. Qed.
+Print Assumptions C06_2d_asls_system_logical.
 
 (* non-vacuity: concrete instances (pentapy and LAPACK layouts) evaluate to calls that denote the
    documented matrices; the hypotheses of C06_returned_pair are satisfiable and a run converges *)
